@@ -156,6 +156,21 @@ def _data(r, kind, n):
     if kind == "sparse":      # clusters far apart: many empty and single-member bins
         cs = [r.uniform(-50, 50) for _ in range(r.randrange(1, 5))]
         return [r.choice(cs) + r.uniform(0, 0.3) for _ in range(n)]
+    if kind == "offset":      # ill-conditioned: spread tiny against the magnitude (cancelling formulas lose everything)
+        base = r.choice([55000.0, 1e6, 1e8, -3e7, 1e12, 123456789.0])
+        t = r.random()
+        if t < 0.4:
+            return [base + r.random() for _ in range(n)]
+        if t < 0.7:
+            return [base + r.randrange(0, 7) for _ in range(n)]
+        vals = [base + r.choice([0.1, 0.3, 0.7]) for _ in range(3)]
+        return [r.choice(vals) for _ in range(n)]
+    if kind == "neartie":     # members one or two ulps apart, and exact ties of values that are inexact in binary
+        import numpy as np
+        base = r.choice([0.1, 0.3, 0.7, 1.1, 1e-3, 2.5e5 + 0.1])
+        near = [base, float(np.nextafter(base, 2 * base + 1)), float(np.nextafter(base, -1))]
+        more = [base * k for k in (3, 7, 9)]
+        return [r.choice(near if r.random() < 0.6 else more) for _ in range(n)]
     raise ValueError(kind)
 
 
@@ -182,7 +197,10 @@ def _second(r, x):
         return [r.randrange(-9, 10) for _ in x]
     if t < 0.8:
         return [r.choice([1.5, -2])] * len(x)
-    return [r.uniform(-1e6, 1e6) for _ in x]
+    if t < 0.9:
+        return [r.uniform(-1e6, 1e6) for _ in x]
+    base = r.choice([1e6, -55000.0, 1e9])
+    return [base + r.gauss(0, 1) for _ in x]
 
 
 def _limits(r, data, which):
@@ -362,6 +380,28 @@ def _adversarial_binned(r):
         for lo, hi in [(xs[0], xs[-1]), (xs[len(xs) // 2], None), (None, xs[len(xs) // 2]), (xs[0] - 1, xs[-1] + 1)]:
             cs.append(_mk(r, "adv:%s+limits" % fam, x, y, w, "nbin", r.choice([1, 2, 4]), lo, hi))
             cs.append(_mk(r, "adv:%s+limits" % fam, x, y, w, "binsize", r.choice([1, 0.5, 0.25]), lo, hi))
+    # all-tied members in every occupied bin, with weights (weighted deviation must be 0, not the residue of a cancellation)
+    tied = [v for v in (0.1, 0.3, 0.7, 1.1, 1.9, 2.3) for _ in range(3)]
+    wt = [0.5 + 0.37 * (i % 5) for i in range(len(tied))]
+    for bs in (0.05, 0.1, 0.2):
+        cs.append(_mk(r, "adv:tied-bins", tied, [1e6 + v for v in tied], wt, "binsize", bs, None, None, rev=True))
+    cs.append(_mk(r, "adv:tied-bins", [55000.1] * 4 + [55000.3] * 3, None, [1.0, 2.0, 3.0, 0.5, 1.5, 2.5, 0.25], "nbin", 2, None, None))
+    # large offsets
+    for base in (55000.0, 1e6, 1e8, 1e12):
+        x = [base + 0.37 * k % 1.0 for k in range(9)]
+        cs.append(_mk(r, "adv:offset", x, [1e6 + 0.01 * k * k for k in range(9)], [1.0 + 0.1 * k for k in range(9)], "nbin", 2, None, None))
+        cs.append(_mk(r, "adv:offset", x, None, [2.0] * 9, "binsize", 0.5, None, None))
+    # special points: equal bounds, signed zeros, a bound exactly 0, bin size exactly the range
+    eq = [1, 1, 2, 1, 0.5, 1]
+    for mode, spec in (("nbin", 1), ("nbin", 3), ("binsize", 1), ("binsize", 0.5)):
+        cs.append(_mk(r, "adv:equal-bounds", eq, [3, 4, 5, 6, 7, 8], [1, 2, 3, 4, 5, 6], mode, spec, 1, 1))
+        cs.append(_mk(r, "adv:equal-bounds", eq, None, None, mode, spec, 1.0, 1))
+    z = [-0.0, 0.0, 0.5, -0.5, 1.0, 0.0]
+    for lo, hi in ((-0.0, 1.0), (0.0, None), (None, 0.0), (0, 1), (-0.0, 0.0), (-0.5, -0.0)):
+        cs.append(_mk(r, "adv:zero-bounds", z, [1, 2, 3, 4, 5, 6], [1, 1, 2, 2, 3, 3], "binsize", 0.5, lo, hi))
+        cs.append(_mk(r, "adv:zero-bounds", z, None, None, "nbin", 2, lo, hi))
+    cs.append(_mk(r, "adv:size=range", [0, 1, 2, 3, 4], None, [1, 1, 1, 1, 1], "binsize", 4, None, None))
+    cs.append(_mk(r, "adv:size=range", [0.1, 0.4, 0.7], [1, 2, 3], None, "binsize", 0.6, 0.1, 0.7))
     # more bins than any plausible internal block (255 / 256 / 257 / 300 / 399), few data
     for nb in (255, 256, 257, 300, 399):
         n = r.choice([20, 64])
@@ -399,10 +439,21 @@ def _adversarial_num(r):
             cs.append(_mk(r, "adv:nperbin+limits", x, y, w, "nperbin", 2, None, xs[-2], mergelast=False))
             cs.append(_mk(r, "adv:nperbin+limits", x, y, w, "nperbin", 3, xs[1], xs[-2], mergelast=True))
     cs.append(_mk(r, "rejected", [1, 2, 3], None, None, "nperbin", 2, 10, 20))
+    # every bin all-tied (multiplicity = nperbin), float weights; large offsets; equal bounds; signed zero bounds
+    tied = [v for v in (0.1, 0.3, 0.7, 1.1, 1.9, 2.3) for _ in range(3)]
+    wt = [0.5 + 0.37 * (i % 5) for i in range(len(tied))]
+    for ml in (True, False):
+        cs.append(_mk(r, "adv:tied-bins", tied, [1e6 + v for v in tied], wt, "nperbin", 3, None, None, mergelast=ml))
+        cs.append(_mk(r, "adv:tied-bins", tied + [2.3], None, [1.0] * 19, "nperbin", 3, None, None, mergelast=ml))
+        cs.append(_mk(r, "adv:offset", [1e8 + 0.37 * k % 1.0 for k in range(11)], [1e6 + k for k in range(11)],
+                      [1.0 + 0.1 * k for k in range(11)], "nperbin", 4, None, None, mergelast=ml))
+        cs.append(_mk(r, "adv:equal-bounds", [1, 1, 2, 1, 0.5, 1], None, [1, 2, 3, 4, 5, 6], "nperbin", 2, 1, 1, mergelast=ml))
+        cs.append(_mk(r, "adv:zero-bounds", [-0.0, 0.0, 0.5, -0.5, 1.0, 0.0], None, None, "nperbin", 2, -0.0, 0.0, mergelast=ml))
     return cs
 
 
-KINDS = ["ints", "ints", "ties", "constant", "floats", "floats", "gauss", "decimal", "sparse", "sparse"]
+KINDS = ["ints", "ints", "ties", "constant", "floats", "floats", "gauss", "decimal", "sparse", "sparse",
+         "offset", "offset", "neartie"]
 
 
 def _random(ctx, count, big, nperbin):
@@ -717,7 +768,7 @@ class Binned(Entry):
             cs += _adversarial_binned(ctx.rng)
             cs += _rejected_forms(ctx.rng)
             cs += _long(ctx, ctx.n(6, 40), False)
-        cs += _random(ctx, ctx.n(480, 4000), ctx.n(120, 300), False)
+        cs += _random(ctx, ctx.n(380, 4000), ctx.n(120, 300), False)
         ctx.rng.shuffle(cs)
         return cs
 
@@ -766,7 +817,7 @@ class NPerBin(Entry):
         if round == 0:
             cs += _adversarial_num(ctx.rng)
             cs += _long(ctx, ctx.n(8, 50), True, LONG_SIZES + ([2047, 2049] if not ctx.quick() else []))
-        cs += _random(ctx, ctx.n(320, 2500), ctx.n(120, 300), True)
+        cs += _random(ctx, ctx.n(280, 2500), ctx.n(120, 300), True)
         ctx.rng.shuffle(cs)
         return cs
 
@@ -859,7 +910,204 @@ class Combo(Entry):
         return "%s:%s" % (c["family"], c["api"])
 
 
-ENTRIES = [Binned(), NPerBin(), Combo()]
+class Sequence(Entry):
+    """history dimension: several calls in ONE process on ONE Binner (every ordered pair of binning modes, with and
+    without statistics in between, limits changed between calls), or through histogram() on the SAME argument objects
+    whose contents are changed in place between calls (equal length, equal first and last element) or on a different
+    object with equal contents.  Every step that produced statistics is judged like a single call (model comparison +
+    verified checker, verdicts OR-ed) and additionally compared with the same call made alone on fresh objects."""
+    name = "sequence"
+    search_rounds = 1
+    MODES = ("binsize", "nbin", "nperbin")
+
+    def _step(self, r, x, mode, lo=None, hi=None):
+        n = len(x)
+        if mode == "nperbin":
+            spec = r.choice([1, 2, 3, max(1, n // 2), n, n + 1])
+        else:
+            spec = _spec(r, x, lo, hi, mode)
+        return {"mode": mode, "spec": _enc(spec) if mode == "binsize" else int(spec),
+                "min": None if lo is None else _enc(lo), "max": None if hi is None else _enc(hi),
+                "rev": r.random() < 0.7, "mergelast": r.random() < 0.5,
+                "stats": r.choice(["auto", "auto", "explicit"])}
+
+    def cases(self, ctx, round=0):
+        r = ctx.rng
+        cs = []
+        pats = [(a, b, mid) for a in self.MODES for b in self.MODES for mid in ("stats", "bare")]
+        reps = ctx.n(3, 14)
+        for a, b, mid in pats * reps:
+            kind = r.choice(["ints", "ties", "decimal", "gauss", "sparse"])
+            n = r.choice([2, 3, 5, 8, r.randrange(2, 30)])
+            x = _as_f4(r, _data(r, kind, n))
+            if kind == "ints":
+                x = [v % 60 for v in x]
+            y = _second(r, x) if r.random() < 0.4 else None
+            w = _weights(r, n) if r.random() < 0.5 else None
+            steps = []
+            for j, m in enumerate((a, b) + ((r.choice(self.MODES),) if r.random() < 0.25 else ())):
+                lo, hi = _limits(r, x, r.choice(["none", "none", "lo", "hi", "both"]))
+                st = self._step(r, x, m, lo, hi)
+                if j == 0 and mid == "bare":
+                    st["stats"] = "none"          # dohist(calc_stats=False) and nothing else before the next call
+                steps.append(st)
+            c = {"family": "seq:%s>%s:%s" % (a, b, mid), "api": "binner", "x": _encl(x), "y": _encl(y), "w": _encl(w),
+                 "forms": {"x": _fit_form(r, x, "x"), "y": None if y is None else _fit_form(r, y, "y"),
+                           "w": None if w is None else _fit_form(r, w, "w")},
+                 "steps": steps, "mutate_caller": r.random() < 0.3}
+            if self._ok(c):
+                cs.append(c)
+        # histogram(): same objects, contents changed in place between the calls / equal contents in another object
+        for _ in range(ctx.n(40, 200)):
+            n = r.choice([3, 4, 6, 9, r.randrange(3, 25)])
+            kind = r.choice(["ints", "decimal", "gauss"])
+            x1 = _data(r, kind, n)
+            if kind == "ints":
+                x1 = [v % 60 for v in x1]
+            x1 = [float(v) for v in x1]
+            inner = x1[1:-1]
+            how = r.choice(["shuffle", "replace", "same"])
+            if how == "shuffle":
+                r.shuffle(inner)
+            elif how == "replace":
+                a_, b_ = min(x1), max(x1)
+                inner = [r.uniform(a_, b_) for _ in inner]
+            x2 = [x1[0]] + inner + [x1[-1]]            # equal length, equal first and last element
+            w1 = _weights(r, n) if r.random() < 0.6 else None
+            w2 = None if w1 is None else ([float(v) for v in w1][::-1] if r.random() < 0.5 else [float(v) for v in w1])
+            m1, m2 = r.choice(self.MODES), r.choice(self.MODES)
+            s1 = self._step(r, x1, m1)
+            s2 = dict(s1) if r.random() < 0.5 else self._step(r, x2, m2)     # often literally the same options
+            for st in (s1, s2):
+                st["stats"] = "auto"
+                st["rev"] = True if w1 is None else st["rev"]
+            c = {"family": "seq:histogram:%s" % how, "api": "histogram", "x": _encl(x1), "y": None,
+                 "w": None if w1 is None else _encl([float(v) for v in w1]), "x2": _encl(x2), "w2": None if w2 is None else _encl(w2),
+                 "forms": None, "steps": [s1, s2], "second": r.choice(["inplace", "inplace", "newobject"])}
+            if self._ok(c):
+                cs.append(c)
+        r.shuffle(cs)
+        return cs
+
+    def _pseudo(self, c, j):
+        """the single-call case that step j of the sequence amounts to"""
+        st = c["steps"][j]
+        second = c["api"] == "histogram" and j >= 1
+        p = {"family": c["family"], "x": c["x2"] if second else c["x"], "y": c["y"],
+             "w": (c.get("w2") if second else c["w"]), "mode": st["mode"], "spec": st["spec"], "min": st["min"],
+             "max": st["max"], "rev": st["rev"], "mergelast": st["mergelast"], "api": c["api"],
+             "container": "ndarray", "forms": c.get("forms")}
+        if c["api"] == "histogram" and p["w"] is None:
+            p["rev"] = True
+        return p
+
+    def _ok(self, c):
+        for j in range(len(c["steps"])):
+            e = expected(self._pseudo(c, j))
+            if e is not None and e["nbin"] > 120:
+                return False
+        return True
+
+    def impl(self, c):
+        import numpy as np
+        import esutil.stat as st_
+        outs, fresh = [], []
+
+        def kwargs(step):
+            kw = {("nbin" if step["mode"] == "nbin" else "binsize" if step["mode"] == "binsize" else "nperbin"): _num(step["spec"])}
+            if step["mode"] == "nperbin":
+                kw["mergelast"] = step["mergelast"]
+            if step["min"] is not None:
+                kw["min"] = _num(step["min"])
+            if step["max"] is not None:
+                kw["max"] = _num(step["max"])
+            return kw
+
+        def run():
+            if c["api"] == "binner":
+                forms = c.get("forms") or {}
+                x = _build(c["x"], forms.get("x"), "ndarray")
+                y = _build(c["y"], forms.get("y"), "ndarray")
+                w = _build(c["w"], forms.get("w"), "ndarray")
+                b = st_.Binner(x, y=y, weights=w)
+                if c.get("mutate_caller"):
+                    for a in (x, y, w):
+                        if isinstance(a, np.ndarray) and a.flags.writeable and a.ndim == 1 and a.size:
+                            a[...] = a[::-1].copy()           # the Binner must not see later changes of the caller's arrays
+                for step in c["steps"]:
+                    def one(step=step):
+                        kw = kwargs(step)
+                        if step["stats"] == "auto":
+                            b.dohist(rev=step["rev"], **kw)
+                        else:
+                            b.dohist(rev=step["rev"], calc_stats=False, **kw)
+                            if step["stats"] == "none":
+                                return None
+                            b.calc_stats()
+                        return _collect(b, y is not None, w is not None)
+                    outs.append(core.guarded(one))
+            else:
+                x = np.array([_num(v) for v in c["x"]], dtype="f8")
+                w = None if c["w"] is None else np.array([_num(v) for v in c["w"]], dtype="f8")
+                for j, step in enumerate(c["steps"]):
+                    if j == 1:
+                        x2 = np.array([_num(v) for v in c["x2"]], dtype="f8")
+                        w2 = None if c["w2"] is None else np.array([_num(v) for v in c["w2"]], dtype="f8")
+                        if c["second"] == "inplace":
+                            x[...] = x2
+                            if w is not None:
+                                w[...] = w2
+                        else:
+                            x, w = x2, w2
+
+                    def one(step=step, x=x, w=w):
+                        kw = kwargs(step)
+                        if w is None:
+                            bb = st_.histogram(x, more=True, **kw)
+                        else:
+                            bb = st_.histogram(x, weights=w, more=bool(step["rev"]), rev=step["rev"], **kw)
+                        return _collect(bb, False, w is not None)
+                    outs.append(core.guarded(one))
+        with warnings.catch_warnings():
+            warnings.simplefilter("ignore")
+            with np.errstate(all="ignore"):
+                run()
+        # the same calls alone, on fresh objects
+        for j, o in enumerate(outs):
+            if o[0] == "ok" and o[1] is None:
+                fresh.append(None)
+                continue
+            f = _drive(self._pseudo(c, j))
+            fresh.append(f[:2] == o[:2] if o[0] != "ok" else f == o)
+        return ("ok", {"steps": outs, "fresh_equal": fresh})
+
+    def term(self, c, out):
+        ts = []
+        for j, o in enumerate(out[1]["steps"]):
+            if o[0] == "ok" and o[1] is None:
+                continue
+            p = self._pseudo(c, j)
+            ent = ENTRIES[1] if p["mode"] == "nperbin" else ENTRIES[0]
+            ts.append("(%s)" % ent.term(p, o))
+            if out[1]["fresh_equal"][j] is False:
+                ts.append("1")                      # depends on the history: differs from the same call made alone
+        t = "0"
+        for u in ts:
+            t = "(Z.lor %s %s)" % (u, t)
+        return t
+
+    def show(self, c):
+        return None
+
+    def nontrivial(self, c, out):
+        judged = [o for o in out[1]["steps"] if o[0] == "ok" and o[1] is not None]
+        return len(judged) >= 2 or (len(judged) >= 1 and len(c["steps"]) >= 2)
+
+    def family(self, c):
+        return c["family"]
+
+
+ENTRIES = [Binned(), NPerBin(), Combo(), Sequence()]
 
 
 # ----------------------------------------------------------------------------- arrays beyond Coq's reach
@@ -899,7 +1147,7 @@ def _huge_data(c):
 
 def _huge_one(c):
     """run the real code on a long array and compare with a direct numpy computation per bin (python-side oracle:
-    float64, relative tolerance 1e-9 against a condition-aware scale); returns a list of discrepancies"""
+    float64, relative tolerance 1e-10 against a condition-aware scale); returns a list of discrepancies"""
     import numpy as np
     import esutil.stat as st
     x, y, w = _huge_data(c)
@@ -968,7 +1216,7 @@ def _huge_one(c):
     xp = "x" if y is not None else ""
 
     def close(a, ref, scale):
-        return abs(a - ref) <= 1e-9 * (abs(ref) + scale) + 1e-300
+        return abs(a - ref) <= 1e-10 * (abs(ref) + scale) + 1e-300
     for i, g in enumerate(groups):
         got = rev[rev[i]:rev[i + 1]]
         if hist[i] != len(g) or not np.array_equal(got, g):
@@ -1028,10 +1276,10 @@ TRUSTED = [
     "edges are computed",
     "hand-written model C14/Model.v of Binner.calc_stats, _hist_by_num, _merge_last and the rev/statistics option handling "
     "(on top of C05's model of the histogram pass and C18's exact-rational wmom1); tied to the working tree by the "
-    "correspondence run on every check (hist, rev, low/high/center bit-for-bit; statistics within 1e-9 of the exact "
+    "correspondence run on every check (hist, rev, low/high/center bit-for-bit; statistics within 1e-12 of the exact "
     "rational value relative to a condition-aware scale; differential testing, bounded by the generators)",
     "modelled, not verified: numpy reductions mean/std/median/sum/sqrt and binary64 rounding of the statistics (compared "
-    "with tolerance 1e-9*(scale), not bounded by proof), numpy's stable argsort, astype(float64), view/slice assignment "
+    "with tolerance 1e-12*(scale), not bounded by proof), numpy's stable argsort, astype(float64), view/slice assignment "
     "semantics in _merge_last, float -> int64 conversion",
     "nperbin: the bin number np.int64(i/float(nperbin)) is modelled as the integer quotient; a monitor evaluates C05's "
     "bit-exact binary64 bin number against it for every (n, nperbin) explored",
@@ -1039,7 +1287,7 @@ TRUSTED = [
     "the single-member and several-member branches of the statistics loop and the constants -9999.0 / 0 / 0.5, compared in "
     "Coq with the tables of Model.v, which Proofs.tables_are_the_model ties to the model",
     "arrays of 4095..100001 elements (beyond what the quadratic list model evaluates in Coq) are compared with a python-side "
-    "numpy oracle (direct computation per bin, float64, 1e-9 relative): not a verified checker",
+    "numpy oracle (direct computation per bin, float64, 1e-10 relative): not a verified checker",
     "python harness (harness/props/C14.py): drivers, key names of the result dictionary, hex-float printer; coqc "
     "evaluating Exec.v verdict terms",
 ]
@@ -1047,7 +1295,7 @@ TRUSTED = [
 
 def run(ctx, replay=None):
     ctx.rule = ("every case runs the real Binner/histogram on (x, y, weights, binsize|nbin|nperbin, min, max, rev, mergelast); "
-                "Coq evaluates agree (hist, rev, edges / low, high bit-exact and every statistic within 1e-9*scale of the "
+                "Coq evaluates agree (hist, rev, edges / low, high bit-exact and every statistic within 1e-12*scale of the "
                 "model's exact rational) and ok (verified checkers binned_check / num_check on the reported values with bin "
                 "members taken from the data).  non-trivial: >= 2 occupied bins and (an empty bin, a single-member bin, a tie, "
                 "an edge value, an excluded datum or a short last bin).  distinct by canonical JSON.")
